@@ -47,8 +47,29 @@ class Mat:
     def whole(self):
         return MView(self, 0, 0, self.rows, self.cols)
 
+    def assign_from(self, M, v):
+        """assignment to the matrix object itself: a dynamic-size Eigen matrix takes the size of the expression (a fixed extent must agree)"""
+        x = as_val(M.rv(v))
+        if x is not None and (x.rows, x.cols) != (self.rows, self.cols) and -1 in (self.srows, self.scols):
+            if (self.srows not in (-1, x.rows)) or (self.scols not in (-1, x.cols)):
+                raise AbstractViolation("a %d x %d expression is assigned to a matrix of compile-time size %s x %s" % (x.rows, x.cols, self.srows, self.scols))
+            self.rows, self.cols = x.rows, x.cols
+            self.c = {k: mach.UNSET for k in x.c}
+        self.whole().store(x if x is not None else M.rv(v))
+
+    def m_noalias(self, M, a, t):
+        return self
+
+    def m_resize(self, M, a, t):
+        r, c = int(simp(a[0])), int(simp(a[1])) if len(a) > 1 else 1
+        if (self.srows not in (-1, r)) or (self.scols not in (-1, c)):
+            raise AbstractViolation("resize(%d, %d) of a matrix of compile-time size %s x %s" % (r, c, self.srows, self.scols))
+        self.rows, self.cols = r, c
+        self.c = {(i, j): mach.UNSET for i in range(r) for j in range(c)}
+        return None
+
     def __getattr__(self, attr):
-        if attr.startswith(("m_", "op_", "iop_")) or attr in ("index", "assign_from"):
+        if attr.startswith(("m_", "op_", "iop_")) or attr in ("index",):
             return getattr(self.whole(), attr)
         raise AttributeError(attr)
 
